@@ -19,7 +19,10 @@ import (
 // ---------------------------------------------------------------------------
 
 var hostileComps = []string{"..", ".", "", "../..", "../../outside", "...", "~", "AAPL", "x/..", "..%2f", " ", "-", "outside",
-	"../outside/dir", "../../../../../../tmp", "a..b", strings.Repeat("L", 300)}
+	"../outside/dir", "../../../../../../tmp", "a..b", strings.Repeat("L", 300),
+	// siblings of the root whose names begin with the root's own name (a check
+	// of the resolved path by string prefix lets them through)
+	"../data.bak", "../data2", "../data_old/dir", "../../data.bak", "../data.bak/dir", "data.bak", "data2", "data_old"}
 
 func rawCreate(n *Node, key, cats string) error {
 	return guard(func() error {
@@ -143,13 +146,17 @@ func c16Engine() *Engine {
 		fs.MkdirAll(dataRoot, 0o755)
 		fs.MkdirAll("/outside/dir/1Min/OHLCV", 0o755)
 		fs.MkdirAll("/tmp", 0o755)
+		fs.MkdirAll("/data.bak/dir/1Min/OHLCV", 0o755)
+		fs.MkdirAll("/data2", 0o755)
+		fs.MkdirAll("/data_old/dir", 0o755)
 		simos.Cur = fs
-		for _, p := range []string{"/outside/victim.txt", "/outside/dir/1Min/OHLCV/2021.bin", "/outside/dir/category_name", "/victim2"} {
+		for _, p := range []string{"/outside/victim.txt", "/outside/dir/1Min/OHLCV/2021.bin", "/outside/dir/category_name", "/victim2",
+			"/data.bak/category_name", "/data.bak/dir/category_name", "/data.bak/dir/1Min/OHLCV/2021.bin", "/data2/keep", "/data_old/dir/keep"} {
 			f, _ := fs.OpenFile(p, 0x42, 0o644) // O_RDWR|O_CREAT
 			f.Write([]byte("precious"))
 			f.Close()
 		}
-		outsideBefore := fs.Hash("/outside") ^ fs.Hash("/tmp") ^ fs.Hash("/victim2")
+		outsideBefore := fs.Hash("/outside") ^ fs.Hash("/tmp") ^ fs.Hash("/victim2") ^ fs.Hash("/data.bak") ^ fs.Hash("/data2") ^ fs.Hash("/data_old")
 		fs.GuardRoots = []string{dataRoot}
 		fs.Record = true
 		applyKnobs(map[string]int{"WriteChannelCommandDepth": 4096})
@@ -221,6 +228,15 @@ func c16Engine() *Engine {
 						}
 					}
 				}
+				if len(comps) >= 4 && r.Pct(12) {
+					// climb out of the root and continue into a sibling whose name starts
+					// with the root's name, one item per category
+					comps[0] = ".."
+					comps[1] = []string{"data.bak", "data2", "data_old"}[r.Intn(3)]
+					if r.Pct(50) {
+						comps[2] = []string{"dir", "AAPL", "MSFT"}[r.Intn(3)]
+					}
+				}
 				if r.Pct(5) && len(comps) > 1 {
 					comps = comps[:len(comps)-1] // fewer items than categories
 				} else if r.Pct(5) {
@@ -275,7 +291,7 @@ func c16Engine() *Engine {
 		if s.Err != nil {
 			res.AddViolation(&Violation{Prop: "C16", Class: "hang", Sig: "C16|hang|" + normMsg(s.Err.Error()), Seed: seed, Detail: s.Err.Error()})
 		}
-		if h := fs.Hash("/outside") ^ fs.Hash("/tmp") ^ fs.Hash("/victim2"); h != outsideBefore {
+		if h := fs.Hash("/outside") ^ fs.Hash("/tmp") ^ fs.Hash("/victim2") ^ fs.Hash("/data.bak") ^ fs.Hash("/data2") ^ fs.Hash("/data_old"); h != outsideBefore {
 			res.AddViolation(&Violation{Prop: "C16", Class: "outside-changed", Sig: "C16|outside-changed", Seed: seed,
 				Detail: "files outside the root changed although the guard refused nothing: the guard missed an operation"})
 		}
